@@ -30,9 +30,10 @@ def complexity (e : Expr) : Float :=
   let factor : Nat := match e with | .op _ _ _ _ _ p => p | .uop _ _ _ _ p => p | _ => 1
   (depth e + (symbolsOf e).length.toFloat) * factor.toFloat
 
-def mkCfg (threshold : Nat) : Cfg :=
+def mkCfg (threshold : Nat) (topHashEq : Bool := true) : Cfg :=
   { cplx := fun e => threshold > 0 && complexity e > threshold.toFloat
-    vecCplx := fun l => threshold > 0 && (l.foldl (fun a e => a + complexity e) 0.0) > threshold.toFloat }
+    vecCplx := fun l => threshold > 0 && (l.foldl (fun a e => a + complexity e) 0.0) > threshold.toFloat
+    topHashEq := topHashEq }
 
 /-! ### JSON ⇄ Expr -/
 
@@ -217,9 +218,31 @@ def parseEnvX (cfg : Cfg) (fuel : Nat) (j : Json) : Except String (R Env) := do
     let r ← getitem cfg fuel c 0 s
     pure (n, s, r))
 
-def outcome (r : R Expr) : Json :=
+/-- does the tree contain a node without a single value (`top`, `vec`, `vecw`, `mem`, `ptr`)? -/
+partial def nondet : Expr → Bool
+  | .cst .. | .reg .. | .ext .. => false
+  | .slc x .. => nondet x
+  | .comp _ _ ps => ps.any (fun p => nondet p.2.2)
+  | .tst t l r _ _ => nondet t || nondet l || nondet r
+  | .op _ l r _ _ _ => nondet l || nondet r
+  | .uop _ r _ _ _ => nondet r
+  | _ => true
+
+/-- valuations `[[[name,size,value]…]…]` → the Lean reference value `ideal ρ e` for each (null when `e` has no
+    single value) -/
+def idealsOf (e : Expr) (j : Json) : Json :=
+  match j.getArr? with
+  | .error _ => Json.null
+  | .ok vals =>
+    if nondet e then Json.null else
+    Json.arr (vals.map (fun vj =>
+      match parseVal vj with
+      | .error _ => Json.null
+      | .ok env => jnat (ideal (envVal env) e)))
+
+def outcome (r : R Expr) (ideals : Json := Json.null) : Json :=
   match r with
-  | .ok e => Json.arr #[jstr "ok", dump e, jstr (render e), jnat e.size]
+  | .ok e => Json.arr #[jstr "ok", dump e, jstr (render e), jnat e.size, idealsOf e ideals]
   | .error .unmodelled => jstr "unmodelled"
   | .error .fuel => jstr "fuel"
   | .error k => Json.arr #[jstr "raise", jstr (errStr k)]
@@ -229,7 +252,8 @@ def opRun (j : Json) : Json :=
   | .ok script, .ok action =>
     let thr := match getNat j "cplx" with | .ok n => n | .error _ => 0
     let fuel := match getNat j "fuel" with | .ok n => n | .error _ => 4000
-    let cfg := mkCfg thr
+    let topeq := match getBool j "topeq" with | .ok b => b | .error _ => true
+    let cfg := mkCfg thr topeq
     let act := match action[0]? with | some (Json.str s) => s | _ => ""
     let res : R Expr := do
       let e ← build cfg fuel script
@@ -253,7 +277,7 @@ def opRun (j : Json) : Json :=
               eval cfg fuel env e
           | .error _ => throw .unmodelled
       | _ => throw .unmodelled
-    outcome res
+    outcome res (match j.getObjVal? "ideals" with | .ok v => v | .error _ => Json.null)
   | _, _ => jerr "args"
 
 /-! ### K-tie: CompWF on dumped comps (with the real `smask`) -/
